@@ -1295,6 +1295,20 @@ func c15Gen(r *Rand, tier string, emit func(op any)) {
 			}
 		}
 	}
+	// 3d. long stack-trace TEXTS (well beyond 8 KiB): deep wrapper chains with a small caller skip, so that the trace holds
+	//     all the wrapper frames
+	for _, fe := range []string{"L.Info", "L.Error", "S.Infow", "L.Check"} {
+		for _, d := range []int{130, 200, 300} {
+			for _, skip := range []int{0, 1} {
+				op := mk("site", fe, c15Chain(r, 0, strings.HasPrefix(fe, "S."), skip), skip, d)
+				op.Ctor, op.Var, op.Stack, op.NoCaller, op.Min = "", "", []int{-1, 0, 1, 2, 3, 4, 5}, false, -1
+				if op.Lvl > 2 || op.Lvl < -1 {
+					op.Lvl = 1
+				}
+				emit(op)
+			}
+		}
+	}
 	// 3c. the stack-trace enabler changes its answer between two questions about one entry
 	for _, fe := range []string{"L.Info", "L.Error", "L.Check", "S.Infow", "S.Errorf", "std.Print"} {
 		for d := 0; d <= 3; d++ {
